@@ -21,6 +21,7 @@ import (
 	"github.com/prometheus/prometheus/model/labels"
 	pscrape "github.com/prometheus/prometheus/scrape"
 	appsv1 "k8s.io/api/apps/v1"
+	apierrors "k8s.io/apimachinery/pkg/api/errors"
 	corev1 "k8s.io/api/core/v1"
 	metav1 "k8s.io/apimachinery/pkg/apis/meta/v1"
 	"k8s.io/apimachinery/pkg/runtime"
@@ -51,6 +52,8 @@ type stsPlan struct {
 	RollBack []bool `json:"rollBack,omitempty"`
 	// OnDelete: the StatefulSet uses the OnDelete update strategy
 	OnDelete bool `json:"onDelete,omitempty"`
+	// Throttled: the API server answers every update of this StatefulSet with 429 Too Many Requests (retry after 1h)
+	Throttled bool `json:"throttled,omitempty"`
 }
 
 type coordCase struct {
@@ -241,7 +244,15 @@ func execCoord(c *coordCase, only int) *coordObs {
 		if harness {
 			return false, nil, nil
 		}
-		return note(a)
+		_, _, _ = note(a)
+		if set, ok := a.(k8stesting.UpdateAction).GetObject().(*appsv1.StatefulSet); ok {
+			for si := range c.Sets {
+				if c.Sets[si].Throttled && c.Sets[si].Name == set.Name && c.Sets[si].ns() == set.Namespace {
+					return true, nil, apierrors.NewTooManyRequests("the server has received too many requests (scripted)", 3600)
+				}
+			}
+		}
+		return false, nil, nil
 	})
 	cli.PrependReactor("delete", "persistentvolumeclaims", note)
 
@@ -347,6 +358,12 @@ func runCoord(c *coordCase) (vs []vkit.Violation, classes []string) {
 	if c.AllNS {
 		classes = append(classes, "coord/all-namespaces")
 	}
+	for si := range c.Sets {
+		if c.Sets[si].Throttled {
+			classes = append(classes, "coord/api-server-throttles-the-updates-of-one-statefulset")
+			break
+		}
+	}
 	// C19, differential: what concerns one StatefulSet is what it would be if it were the only one
 	if len(c.Sets) > 1 && obs.crash == "" && !obs.hung {
 		for si := range c.Sets {
@@ -449,7 +466,8 @@ func genCoord(t *rapid.T) *coordCase {
 	maxPods := 0
 	used := map[string]bool{} // namespace/name and namespace/label pairs taken
 	for i := 0; i < n; i++ {
-		s := stsPlan{Name: names[i], Pods: rapid.IntRange(1, 3).Draw(t, fmt.Sprintf("pods%d", i)), OnDelete: rapid.IntRange(0, 3).Draw(t, fmt.Sprintf("onDelete%d", i)) == 0}
+		s := stsPlan{Name: names[i], Pods: rapid.IntRange(1, 3).Draw(t, fmt.Sprintf("pods%d", i)), OnDelete: rapid.IntRange(0, 3).Draw(t, fmt.Sprintf("onDelete%d", i)) == 0,
+			Throttled: rapid.IntRange(0, 5).Draw(t, fmt.Sprintf("throttled%d", i)) == 0}
 		if c.AllNS {
 			s.NS = rapid.SampledFrom([]string{"", "tenant-b", "tenant-c"}).Draw(t, fmt.Sprintf("ns%d", i))
 			if i > 0 && rapid.Bool().Draw(t, fmt.Sprintf("sameName%d", i)) {
